@@ -293,3 +293,129 @@ func g9Ordered(c *Ctx, names ...string) {
 		}
 	}
 }
+
+// G12 — (*call).HasUndefined is total over type constructors: a call whose argument type contains an unresolved
+// ("invalid") constituent anywhere must be deferred, never handed to a plugin. The method is tabulated by abstract
+// interpretation over one opaque argument type: on every path that answers "fully defined" (false) the method must have
+// examined the whole type — through its String() rendering (which prints every constituent of an unnamed composite
+// type), or by recursive calls on every constituent of the kind established on that path; a default arm that answers
+// false for kinds that have constituents is a violation.
+func g12HasUndefined(c *Ctx) {
+	fi := c.Repo.lookup("derive.(*call).HasUndefined")
+	if fi == nil {
+		c.Rep.fail(Finding{Rule: "G12", Key: "G12|HasUndefined|missing", Kind: "undecided", Msg: "(*call).HasUndefined not found"})
+		return
+	}
+	composite := []string{"*types.Pointer", "*types.Slice", "*types.Array", "*types.Chan", "*types.Map", "*types.Struct", "*types.Signature", "*types.Tuple"}
+	constituents := map[string][]string{"*types.Pointer": {"Elem"}, "*types.Slice": {"Elem"}, "*types.Array": {"Elem"}, "*types.Chan": {"Elem"},
+		"*types.Map": {"Key", "Elem"}, "*types.Signature": {"Params", "Results"}}
+	or := &Oracle{}
+	rows := 0
+	for n := 0; n < 3000; n++ {
+		or.pos = 0
+		in := &Interp{repo: c.Repo, plugin: "derive", decls: c.R.decls, or: or, memo: map[string]int{}, shape: 1, arities: []int{1, 2},
+			preds: map[string]Value{}, stack: map[*ast.FuncDecl]int{}, imports: map[string]int{}, importUse: map[string]bool{}, holes: map[string]*Hole{}, g9mode: true}
+		arg := &VOpaque{Origin: "argtype"}
+		recv := &VPtr{Elem: &VStruct{Fields: map[string]Value{"Expr": &VOpaque{Origin: "expr"}, "Name": hole("NAME", "callname"), "Args": &VList{Elems: []Value{arg}}}}}
+		var res Value
+		msg := ""
+		func() {
+			defer func() {
+				if e := recover(); e != nil {
+					if a, ok := e.(abort); ok {
+						msg = a.kind + ": " + a.msg
+						return
+					}
+					msg = fmt.Sprint(e)
+				}
+			}()
+			res = in.callFunc(&VFunc{Decl: fi.Decl, Pkg: fi.Pkg, Recv: recv}, nil, token.NoPos)
+		}()
+		rows++
+		desc := func() string {
+			var ss []string
+			for _, d := range in.decisions {
+				ss = append(ss, fmt.Sprintf("%s=%d/%d", d.Sym, d.Choice, d.N))
+			}
+			return strings.Join(ss, "; ")
+		}
+		if msg != "" {
+			c.Rep.fail(Finding{Rule: "G12", Key: "G12|HasUndefined|undecided", Kind: "undecided", Where: []string{c.Repo.pos(fi.Decl.Pos())}, Msg: "HasUndefined cannot be tabulated (" + msg + ")", Detail: desc()})
+			return
+		}
+		b, ok := res.(VBool)
+		if !ok {
+			c.Rep.fail(Finding{Rule: "G12", Key: "G12|HasUndefined|result", Kind: "undecided", Where: []string{c.Repo.pos(fi.Decl.Pos())}, Msg: fmt.Sprintf("HasUndefined returned %T", res)})
+			return
+		}
+		if !b.Known || b.V {
+			c.Rep.pass("G12")
+		} else {
+			// answered "fully defined": what was examined?
+			usedString := false
+			for _, d := range in.decisions {
+				if strings.Contains(d.Sym, ".String()") {
+					usedString = true
+				}
+			}
+			if usedString {
+				c.Rep.pass("G12")
+			} else {
+				kind := arg.Kind
+				bad := ""
+				switch {
+				case kind == "" || kind == "other":
+					var missing []string
+					for _, k := range composite {
+						excluded := false
+						for _, nk := range arg.notKinds {
+							if nk == k {
+								excluded = true
+							}
+						}
+						if !excluded {
+							missing = append(missing, strings.TrimPrefix(k, "*types."))
+						}
+					}
+					if len(missing) > 0 {
+						bad = "an argument of kind " + strings.Join(missing, "/") + " is reported as fully defined without looking at its constituents"
+					}
+				case kind == "*types.Struct" || kind == "*types.Tuple":
+					el, _ := arg.attrs["#elems"].(*VList)
+					asked := 0
+					for _, pc := range in.predCalls {
+						_ = pc
+						asked++
+					}
+					if el == nil || asked < len(el.Elems) {
+						bad = "a " + strings.TrimPrefix(kind, "*types.") + " argument is reported as fully defined although not all of its members were examined"
+					}
+				default:
+					for _, attr := range constituents[kind] {
+						sub, _ := arg.attrs[attr].(*VOpaque)
+						found := false
+						for _, pc := range in.predCalls {
+							if pc.arg == sub && sub != nil {
+								found = true
+							}
+						}
+						if !found {
+							bad = "a " + strings.TrimPrefix(kind, "*types.") + " argument is reported as fully defined without examining its " + attr
+						}
+					}
+				}
+				if bad == "" {
+					c.Rep.pass("G12")
+				} else {
+					c.Rep.fail(Finding{Rule: "G12", Key: "G12|HasUndefined|" + strings.Fields(bad)[0] + " " + strings.Fields(bad)[1] + " " + strings.Fields(bad)[2], Where: []string{c.Repo.pos(fi.Decl.Pos())},
+						Msg:    "(*call).HasUndefined: " + bad + ": a derive call whose argument type contains an unresolved type there is registered instead of deferred, and goderive exits 0 with `invalid type` in derived.gen.go",
+						Detail: "abstract path: " + desc()})
+				}
+			}
+		}
+		if !or.next() {
+			break
+		}
+	}
+	c.Rep.analysed("HasUndefined_paths", rows)
+}
